@@ -35,6 +35,10 @@ struct Shadow {
     credited: BTreeMap<(usize, usize), u32>,
     /// target tokens seen arriving at each account since the last accepted Purge (the monitors' own mint count)
     received: BTreeMap<usize, u64>,
+    // supply side (C01 clauses on this minter)
+    minted: BTreeSet<u64>,
+    burned: u64,
+    started: bool,
 }
 
 fn recipient_index(user: usize, recip: &Recip) -> Option<usize> {
@@ -190,6 +194,80 @@ fn monitor(
     v
 }
 
+/// C01 on the token-merge minter, evaluated on every step: every minted id lies in
+/// 1..=num_tokens and is minted at most once, never id 0, MintableNumTokens =
+/// num_tokens - minted - burned, the mintable ids are exactly the ids neither minted nor
+/// burned (raw MINTABLE_TOKEN_POSITIONS), Shuffle keeps positions and id set.
+fn monitor_supply(case: &Case, st: &Step, ok: bool, pick: u64, burned_evt: Option<u64>, pre: &Obs, post: &Obs, sh: &mut Shadow) -> Vec<(String, String)> {
+    let mut v: Vec<(String, String)> = vec![];
+    macro_rules! bad {
+        ($k:expr, $w:expr) => {
+            v.push((format!("C01tm:{}", $k), $w))
+        };
+    }
+    let n = case.num_tokens as u64;
+    if !sh.started {
+        sh.started = true;
+        let mut ids: Vec<u64> = pre.positions.iter().map(|(_, t)| *t as u64).collect();
+        ids.sort();
+        let pos: Vec<u64> = pre.positions.iter().map(|(p, _)| *p as u64).collect();
+        if ids != (1..=n).collect::<Vec<_>>() || pos != (1..=n).collect::<Vec<_>>() || pre.mintable != n {
+            bad!("initial-positions", format!("after creation: {} positions, MintableNumTokens {}, num_tokens {}", pre.positions.len(), pre.mintable, n));
+        }
+    }
+    if !ok {
+        return v; // "rejected => nothing changed" is checked by the C17 monitor on the whole observation
+    }
+    if pick != 0 || post.tgt_supply != pre.tgt_supply {
+        if post.tgt_supply != pre.tgt_supply + 1 {
+            bad!("supply-mismatch", format!("target NumTokens {} -> {} in one call", pre.tgt_supply, post.tgt_supply));
+        }
+        if pick == 0 || pick > n {
+            bad!("id-out-of-range", format!("minted id {} with num_tokens {}", pick, n));
+        }
+        if !sh.minted.insert(pick) {
+            bad!("re-mint", format!("id {} minted a second time", pick));
+        }
+        if !post.tgt_all.contains(&pick.to_string()) {
+            bad!("supply-mismatch", format!("minted id {} is not in AllTokens of the collection", pick));
+        }
+    }
+    if let Op::BurnRemaining { .. } = &st.op {
+        let gone = pre.positions.len() as u64;
+        if burned_evt != Some(gone) || !post.positions.is_empty() {
+            bad!("burn-remaining", format!("BurnRemaining reported {:?}, {} positions before, {} after", burned_evt, gone, post.positions.len()));
+        }
+        sh.burned += gone;
+    }
+    if let Op::Shuffle { .. } = &st.op {
+        let mut a: Vec<u32> = pre.positions.iter().map(|x| x.1).collect();
+        let mut b: Vec<u32> = post.positions.iter().map(|x| x.1).collect();
+        a.sort();
+        b.sort();
+        if a != b || pre.positions.iter().map(|x| x.0).ne(post.positions.iter().map(|x| x.0)) {
+            bad!("shuffle-changed-ids", "Shuffle changed the set of mintable ids or positions".to_string());
+        }
+    }
+    if post.tgt_all.iter().any(|t| t == "0") {
+        bad!("mint-zero", "token id 0 exists in the collection".to_string());
+    }
+    let mut all: Vec<u64> = post.tgt_all.iter().filter_map(|t| t.parse().ok()).collect();
+    all.sort();
+    if all != sh.minted.iter().cloned().collect::<Vec<_>>() || post.tgt_supply != sh.minted.len() as u64 {
+        bad!("supply-mismatch", format!("collection holds {:?} (NumTokens {}), minted so far {:?}", post.tgt_all, post.tgt_supply, sh.minted));
+    }
+    if post.mintable + sh.minted.len() as u64 + sh.burned != n {
+        bad!("mintable-count", format!("MintableNumTokens {} != num_tokens {} - minted {} - burned {}", post.mintable, n, sh.minted.len(), sh.burned));
+    }
+    let mut left: Vec<u64> = post.positions.iter().map(|x| x.1 as u64).collect();
+    left.sort();
+    let want: Vec<u64> = if post.positions.is_empty() && sh.burned > 0 { vec![] } else { (1..=n).filter(|t| !sh.minted.contains(t)).collect() };
+    if left != want || post.positions.len() as u64 != post.mintable {
+        bad!("positions-mismatch", format!("mintable ids {:?}, expected {:?}, MintableNumTokens {}", left, want, post.mintable));
+    }
+    v
+}
+
 fn run_case(case: &Case) -> Result<RunOut, String> {
     let mut w = build(case)?;
     let init = observe(&w, case);
@@ -203,12 +281,13 @@ fn run_case(case: &Case) -> Result<RunOut, String> {
         let r = apply(&mut w, &st.op);
         let d1 = chain::storage_digest(&w.app, &w.minter);
         let post = observe(&w, case);
-        let (ok, err, pick) = match &r {
-            Ok(res) => (true, String::new(), minted_pick(&w, res)),
-            Err(e) => (false, e.clone(), 0),
+        let (ok, err, pick, burned_evt) = match &r {
+            Ok(res) => (true, String::new(), minted_pick(&w, res), burned_attr(res)),
+            Err(e) => (false, e.clone(), 0, None),
         };
         if !dead {
-            let vs = monitor(case, st, ok, &pre, &post, d0 == d1, &mut sh, &mut out.notes);
+            let mut vs = monitor(case, st, ok, &pre, &post, d0 == d1, &mut sh, &mut out.notes);
+            vs.extend(monitor_supply(case, st, ok, pick, burned_evt, &pre, &post, &mut sh));
             if !vs.is_empty() {
                 dead = true;
             }
